@@ -1,14 +1,17 @@
 #!/bin/bash
 # tools/seeds_rerun_all.sh : re-run every confirmed seeded change against the current checks.
 # Meant for a background snapshot run:  vp run --with-repo -- tools/seeds_rerun_all.sh
+# optional arguments: the seed tags to re-run (default: all); RERUN_OUT=<file> for the result file
 # (uses $VP_RUN_REPO as the repository copy; falls back to /repo when run by hand - then /repo must be clean and idle)
 ROOT="$(cd "$(dirname "$(readlink -f "$0")")/.." && pwd)"; cd "$ROOT" || exit 2
 REPO="${VP_RUN_REPO:-/repo}"
 if [ "$REPO" != "/repo" ]; then sed -i "s#\"/repo\"#\"$REPO\"#" harness/Cargo.toml tsan/Cargo.toml sentinel/Cargo.toml; fi
 OUT=seeded/RESULTS_ALL.txt; : > $OUT
 cp -r evidence work_evidence_keep 2>/dev/null
-for d in seeded/C*/; do
-  tag=$(basename $d); prop=${tag:0:3}
+LIST="${@:-$(ls -d seeded/C*/ | xargs -n1 basename)}"
+OUT=${RERUN_OUT:-$OUT}; : > $OUT
+for tag in $LIST; do
+  d=seeded/$tag; prop=${tag:0:3}
   git -C "$REPO" checkout -q -- . 
   if ! git -C "$REPO" apply "$ROOT/$d/patch.diff" 2>/dev/null; then echo "$tag patch-does-not-apply" >> $OUT; continue; fi
   out=$(./run $prop quick 2>&1); rc=$?
